@@ -538,3 +538,21 @@ def replay(ctx, data):
     trig = bytes.fromhex(w["trig"]) if w.get("trig") else None
     r, enc, dec = O.c01_eval(c, L[c.name], v, trig)
     return r is None
+
+
+# nested tier, extension W21 (Props/C01Nested3.lean, Proofs/CompCompu*.lean): compu-method leaves (LINEAR, TEXTTABLE, DTC-DOP) as
+# components at any depth of structures / fields / multiplexers
+LEAN_TARGETS += ['OdxVerif.Props.C01Nested3']
+THEOREMS += ["OdxVerif.Codec." + t for t in [
+    'C01_roundtrip_nested3', 'C01_roundtrip_nested3_whole', 'C01_roundtrip_bytesize3', 'C01_roundtrip_nested3_of_described2',
+    'C01_linear_leaf_ok', 'Described3.ok', 'DescribedTop3.ok', 'Described2.to3', 'DescribedTop.to3',
+    'encodeDct_obj', 'decodeDct_obj', 'Comp.ofConvLeaf_ok', 'Comp.ofConvLeaf_endOk', 'Comp.ofConvPhysConst_ok',
+    'LinLeaf.convOk', 'LinLeaf.comp_ok', 'LinLeaf.constComp_ok', 'TTLeaf.convOk', 'TTLeaf.comp_ok', 'TTLeaf.constComp_ok',
+    'DtcLeaf.convOk', 'DtcLeaf.comp_ok', 'DtcLeaf.constComp_ok', 'methodP2I_textTable_of_p2i', 'methodI2P_textTable_of_i2p',
+    'Comp.ofConvDefault_ok', 'LinLeaf.defaultComp_ok', 'TTLeaf.defaultComp_ok', 'DtcLeaf.defaultComp_ok']]
+# … and their C02 footprint (Proofs/CompCompuBits.lean, CompCompuBitsMsg.lean): Desc3 = the syntactic mirror of Described3; the layout
+# entry of a compu leaf holds the raw pattern of the INTERNAL value (statements of C02_bit_exact_nested2 / C02_overlap_iff_nested2)
+LEAN_TARGETS += ['OdxVerif.Proofs.CompCompuBitsMsg']
+THEOREMS += ["OdxVerif.Codec." + t for t in [
+    'C02_bit_exact_nested3', 'C02_overlap_iff_nested3', 'Desc3.described', 'Desc3.foot', 'Descs3.footTop', 'descs3_encodeMessage',
+    'LinLeaf.desc_wf', 'TTLeaf.desc_wf', 'DtcLeaf.desc_wf', 'Descs3.padOk_of_noSizePadding']]
